@@ -52,6 +52,10 @@ func init() {
 		mutant{"single read of the response", "codec/websocket/stream.go",
 			"\tfor n < len(s.handshakeBuffer) && !bytes.Contains(s.handshakeBuffer[:n], []byte(\"\\r\\n\\r\\n\")) {\n\t\tnn, err := stream.Read(s.handshakeBuffer[n:])\n\t\tif err != nil {\n\t\t\treturn err\n\t\t}\n\t\tn += nn\n\t}",
 			"\t{\n\t\tnn, err := stream.Read(s.handshakeBuffer[n:])\n\t\tif err != nil {\n\t\t\treturn err\n\t\t}\n\t\tn += nn\n\t}", "C18-R5"},
+		mutant{"hasher reused without reset", "codec/websocket/stream.go",
+			"\ts.hasher.Reset()\n\ts.hasher.Write(resKey)", "\ts.hasher.Write(resKey)", "C18-R1"},
+		mutant{"handshake buffer parsed at full length", "codec/websocket/stream.go",
+			"\ts.handshakeBuffer = s.handshakeBuffer[:n]\n\trd := bytes.NewReader", "\trd := bytes.NewReader", "C18-R4"},
 		mutant{"terminator searched in the newest bytes only", "codec/websocket/stream.go",
 			"\tn := 0\n\tfor n < len(s.handshakeBuffer) && !bytes.Contains(s.handshakeBuffer[:n], []byte(\"\\r\\n\\r\\n\")) {\n\t\tnn, err := stream.Read(s.handshakeBuffer[n:])\n\t\tif err != nil {\n\t\t\treturn err\n\t\t}\n\t\tn += nn\n\t}",
 			"\tn, scanned := 0, 0\n\tfor n < len(s.handshakeBuffer) {\n\t\tnn, err := stream.Read(s.handshakeBuffer[n:])\n\t\tif err != nil {\n\t\t\treturn err\n\t\t}\n\t\tn += nn\n\t\tif bytes.Contains(s.handshakeBuffer[scanned:n], []byte(\"\\r\\n\\r\\n\")) {\n\t\t\tbreak\n\t\t}\n\t\tscanned = n\n\t}", "C18-R5"},
@@ -210,6 +214,40 @@ func runC18(c *Ctx) {
 	}
 
 	// ------------------------------------------------------------------------------------------------ R2
+	// the accept value is computed by a hash that starts empty: Reset precedes Write in makeHandshakeKey (the hasher is
+	// reused across handshakes)
+	{
+		var resets, writes []ssa.Instruction
+		eachInstr(mkKey, func(in ssa.Instruction) {
+			call, ok := in.(ssa.CallInstruction)
+			if !ok || !call.Common().IsInvoke() {
+				return
+			}
+			if n, ok := call.Common().Value.Type().(*types.Named); !ok || n.Obj().Pkg() == nil || n.Obj().Pkg().Path() != "hash" {
+				return
+			}
+			switch call.Common().Method.Name() {
+			case "Reset":
+				resets = append(resets, in)
+			case "Write":
+				writes = append(writes, in)
+			}
+		})
+		fresh := len(writes) > 0
+		for _, w := range writes {
+			dom := false
+			for _, r := range resets {
+				if dominatesInstr(r, w) {
+					dom = true
+				}
+			}
+			if !dom {
+				fresh = false
+			}
+		}
+		c.check(fresh, mkKey, "fresh hash", mkKey.Pos(), "the hasher is reset before the key is hashed", "the expected accept value is hashed without resetting the reused hasher: from the second handshake on it covers the previous keys as well and a conforming server is refused")
+	}
+
 	c.rule("C18-R2", "acceptance iff status 101, Upgrade: websocket (case-insensitive) and Sec-WebSocket-Accept equal to the value derived from the key sent", 2)
 	{
 		n := 0
@@ -432,6 +470,36 @@ func runC18(c *Ctx) {
 				}
 			})
 			c.check(good, upgrade, "leftover", call.Pos(), "offset = index of the blank line in the received bytes + 4", why+": frames piggy-backed on the response are lost, truncated or preceded by header bytes")
+			// only bytes that were received are parsed and handed on: the buffer is cut to the received count before
+			var readCount ssa.Value
+			eachInstr(upgrade, func(in ssa.Instruction) {
+				rc, ok := in.(ssa.CallInstruction)
+				if !ok || !rc.Common().IsInvoke() || rc.Common().Method.Name() != "Read" {
+					return
+				}
+				if rs, ok := stripConv(rc.Common().Args[0]).(*ssa.Slice); ok && loadOfField(rs.X, hsBuf) && rs.Low != nil {
+					readCount = stripConv(rs.Low)
+				}
+			})
+			cut := false
+			for _, a := range storesTo(upgrade, hsBuf) {
+				cs, ok := stripConv(a.Val).(*ssa.Slice)
+				if !ok || !loadOfField(cs.X, hsBuf) || cs.High == nil || readCount == nil {
+					continue
+				}
+				same := stripConv(cs.High) == readCount
+				if ph, ok := readCount.(*ssa.Phi); ok && !same {
+					for _, e := range ph.Edges {
+						if stripConv(e) == stripConv(cs.High) {
+							same = true
+						}
+					}
+				}
+				if same && dominatesInstr(a.Instr, call.(ssa.Instruction)) {
+					cut = true
+				}
+			}
+			c.check(cut, upgrade, "received prefix", call.Pos(), "the handshake buffer is cut to the bytes received before it is parsed", "the handshake buffer is parsed / handed to the read buffer at its full length, not cut to the bytes received: stale bytes of an earlier handshake (or zeroes) are decoded as frames")
 		}
 		if n == 0 {
 			c.bad(upgrade, "leftover", upgrade.Pos(), "bytes received after the response are not handed to the read buffer")
